@@ -368,6 +368,7 @@ contract("gherkin.token_matcher.TokenMatcher._change_dialect",
          variants=[dict(location=MutDict("Location")), dict(location=NoneT)],
          returns=NoneT,
          bounded_only="map-update invariant over all keyword strings is out of PyVC's reach; enumerated over the 80 dialects instead",
+         standin="dialects::keyword-types",
          modifies=["self.dialect_name", "self.dialect", "self.keyword_types"],
          ensures=[clause("switched", lambda self, dialect_name: self.dialect_name == dialect_name
                          and ghost("known_dialect", dialect_name), serves=["C05", "C15"])],
